@@ -13,8 +13,18 @@ PROP = {
         "GunYu.Props.C14.consistent_of_inv",
         "GunYu.Props.C14.resume_monotone",
         "GunYu.Props.C14.resume_monotone_rooted",
+        "GunYu.Props.C14.traffic_init_inv",
+        "GunYu.Props.C14.traffic_each_step_preserves",
+        "GunYu.Props.C14.resume_monotone_traffic",
     ],
     "gens": ["c17"],
+    # Model/FrontierTraffic.lean (resume_monotone_traffic) lets no unit commit while a recovery request of the start is
+    # outstanding: the recovery runs synchronously inside bisyncStartPoint (no goroutine started there or in the two
+    # functions it calls for the purge / the clean-up), StartPoint calls it directly; c14l also checks it on the request log
+    "expected_facts": {
+        "c14_start_sync": {"bisyncStartPoint": [], "purgeBisyncRecoveryState": [], "cleanupRecoveredBisyncCommitRecords": []},
+        "c14_startpoint_calls": ["sp, seq, ok, err := ro.bisyncStartPoint(ctx, runIds)"],
+    },
     # the flush policy constants (unit threshold, interval) are a tuning parameter: the model is parameterised
     # by them (Model/Frontier.lean FlushPolicy, World.pol), the c14c run passes the code's values to the driver
     "harness": [
@@ -54,7 +64,7 @@ PROP = {
             "command (EXECABORT), a command failing inside EXEC, a journal DEL. EVERY request prefix (state replayed with the fault failing again) -> fresh "
             "process StartPoint; resumed run from a random crash point to the end. Monitors independent of any model (unit committed = its data key exists): "
             "resume at a unit boundary with every earlier unit committed; sync: exactly the last committed; bisyncSeq = number of that unit; resume never "
-            "moves backwards along the log; a start whose own frontier HSET failed is not undercut by the next; in-memory bisyncSeq and bisyncOffset at every "
+            "moves backwards along the log; a start whose own frontier HSET failed is not undercut by the next; no connection StartPoint used issues a request once the send loop runs (recovery precedes the loop); in-memory bisyncSeq and bisyncOffset at every "
             "request each name a committed prefix (sampled from the double's connection goroutines while the loop stores the two one after the other: judged "
             "one by one; that both name the SAME unit is judged where the code reads them - after the loop returned and at the next StartPoint of the process); second StartPoint of the SAME process (fast path), and a third after a full resynchronisation moved the root "
             "forward (real ResetStartPoint + setCheckpoint): the new root, not the in-memory frontier; resumed run leaves no unit uncommitted. "
@@ -70,7 +80,7 @@ PROP = {
         "reviewer's mutant m5 (lane worker ignores validateBisyncExecReplies) is behaviourally equivalent: txnBatcher.Receive already rejects EXECABORT and inner errors (common.CheckTxnRepliesError) before the validation is reached - verified with the queued / inner fault cases under the mutant",
     ],
     "partial": [
-        "monotonicity of the resume point along executions WITH traffic is not proved: resume_monotone(_rooted) covers stop/start cycles without traffic from every reachable state; with traffic it is monitored on every crash point of the real loops (loop-resume-moves-backwards, loop-recovery-fault-moves-backwards). The model queues recovery requests and coordinator requests in one FIFO that commits may interleave with - the code runs the recovery before the loop starts - so the statement needs a split queue and an ordering invariant on queued save/delete requests",
+        "monotonicity of the resume point along executions WITH traffic is PROVED for the split-queue system (resume_monotone_traffic over Model/FrontierTraffic.lean: commits on any lanes in any order, reports in any order, ticks at any time under any FlushPolicy, every request applied on its own, crash after any request, restarts): sequence number and offset a fresh start would resume from never decrease, and name a committed prefix. What it rests on beyond the one-queue model: (1) no unit commits / is reported while a recovery request of the start is outstanding - source facts c14_start_sync / c14_startpoint_calls and the c14l monitor loop-recovery-overlaps-send-loop; (2) hypotheses: end offsets grow with the unit number, the source still reports the run id the units are recorded under (matchRun W.rid W.ids), index members are scored with their key's number and a root checkpoint exists in the initial state (both hold in a fresh namespace, traffic_init_inv, and are preserved). One numbering only (World.e): a numbering restart inside the execution happens only from resume number 0 (root fall-back), which the theorem covers; two numberings with different offsets are not spanned",
         "numbering restart (root newer / no frontier / journal gap: the start returns the root with seq 0 and purges the previous numbering) is in the start-point model and tied by correspondence + monitors (c14s requests, start-fault-renumber-skips-unit, c14l stale-frontier cases); the invariant theorems fix ONE numbering (World.e): no theorem spans two numberings",
         "sync mode on a cluster (several latest records, root override without purge, rests on LoadBisyncLatestStartRecord ordering by end offset first): sync_mode_exact has one slot; c14b and the c14k sync cases check the real selection against an explicit oracle",
     ],
